@@ -26,6 +26,8 @@ def has_type(v, t):
         return True
     if typing.get_origin(t) is collections.abc.Callable:
         return callable(v)
+    if isinstance(t, tuple):
+        return type(v) is tuple and len(v) == len(t) and all(has_type(e, u) for e, u in zip(v, t))
     return typeof(v) == t
 
 
@@ -90,7 +92,14 @@ def namespace():
 
 EXT_FUNS = ('ident', 'pick', 'tostr', 'length', 'mkpair')
 
-BINOPS = {'+': lambda a, b: a + b, '-': lambda a, b: a - b, '*': lambda a, b: a * b}
+def _mul(a, b):
+    # the tag of tuple * int depends on the value of the int: outside the type-level operators
+    if type(a) is tuple or type(b) is tuple:
+        raise TypeError('tuple repetition')
+    return a * b
+
+
+BINOPS = {'+': lambda a, b: a + b, '-': lambda a, b: a - b, '*': _mul}
 CMPOPS = {'==': lambda a, b: a == b, '!=': lambda a, b: a != b, '<': lambda a, b: a < b, '>=': lambda a, b: a >= b}
 UNOPS = {'-': lambda a: -a, 'not ': lambda a: not a}
 _AST_BIN = {ast.Add: '+', ast.Sub: '-', ast.Mult: '*'}
@@ -159,6 +168,7 @@ class Gen(object):
         self.budget = opts.max_stmts
         self.nfun = 0
         self.nloop = 0
+        self.inloop = 0            # > 0: no tuple may be built from a local variable (see Diverged)
         self.env0 = {p: {t} for p, t in zip(PARAMS, argtypes)}
         ns = namespace()
         self.globals = {k: {typeof(v)} for k, v in ns.items() if k.startswith('G_')}
@@ -199,6 +209,11 @@ class Gen(object):
         if k == 'name':
             n, s = r.choice(self.known(env))
             return n, set(s)
+        if self.inloop and k in ('tuple', 'call'):
+            # tuple tags nest without bound when a loop wraps a variable into a tuple again and again
+            # (x = (x, 1)): the analysis then never reaches a fixed point.  Inside loops tuples are built
+            # from parameters, globals and constants only.
+            env = {n: s for n, s in env.items() if n in PARAMS}
         if k == 'tuple':
             n = r.choice([1, 2, 2, 3])
             parts = [self.expr(env, depth + 1) for _ in range(n)]
@@ -357,7 +372,8 @@ class Gen(object):
         if k == 'aug':
             cands = [n for n in vars_ if env.get(n) and env[n] <= {int, float, bool}]
             if not cands:
-                return self.stmt(ind, env, depth, infun) if self.budget > 0 else env
+                self.emit(ind, self.const()[0])
+                return env
             v = r.choice(cands)
             e = r.choice(['1', '0.5', 'True'])
             self.emit(ind, '%s += %s' % (v, e))
@@ -382,11 +398,13 @@ class Gen(object):
             env[n] = {int}
             # the body is generated against the join of the entry state and (an approximation of) its own result
             save = (list(self.lines), self.budget, self.nloop, self.nfun, r.getstate())
+            self.inloop += 1
             e1 = self.block(ind + 1, env, depth + 1, infun)
             self.lines, self.budget, self.nloop, self.nfun = save[0], save[1], save[2], save[3]
             r.setstate(save[4])
             envj = self.widen(env, e1)
             e2 = self.block(ind + 1, envj, depth + 1, infun)
+            self.inloop -= 1
             return self.widen(envj, e2)
         if k == 'for':
             self.nloop += 1
@@ -400,11 +418,13 @@ class Gen(object):
             envb = dict(env)
             envb[q] = tq
             save = (list(self.lines), self.budget, self.nloop, self.nfun, r.getstate())
+            self.inloop += 1
             e1 = self.block(ind + 1, envb, depth + 1, infun)
             self.lines, self.budget, self.nloop, self.nfun = save[0], save[1], save[2], save[3]
             r.setstate(save[4])
             envj = self.widen(envb, e1)
             e2 = self.block(ind + 1, envj, depth + 1, infun)
+            self.inloop -= 1
             res = self.widen(envj, e2)
             return {k: (set(env[k]) | res[k]) for k in env}
         if k == 'def':
@@ -442,6 +462,7 @@ class Gen(object):
             g = r.choice(sorted(self.funs))
             npar, rebinds = self.funs[g]
             if npar:
+                self.emit(ind, self.const()[0])
                 return env
             self.emit(ind, 'h = %s' % g)
             e, t = self.expr(env)
@@ -624,6 +645,7 @@ class Recorder(object):
             self.writer[(owner, name)] = (k, sk)
             if len(self.events) < self.limit:
                 self.events.append(('B', sk, v, (k, sk)))
+        self.events.append(('BE', k))
 
     def C(self, fk, caps):
         for (owner, name, thunk) in caps:
@@ -896,7 +918,8 @@ def make_resolver(prog, runs, decline=None, log=None):
             return record('unop', (_AST_UN[type(node.op)], frozenset(opnd)), ans)
 
         def res_binop(self, ns, types_ns, node, left, right):
-            if dec('binop') or type(node.op) not in _AST_BIN:
+            if dec('binop') or type(node.op) not in _AST_BIN or (
+                    isinstance(node.op, ast.Mult) and any(isinstance(t, tuple) for t in left | right)):
                 return record('binop', None, None)
             ans = lift(BINOPS[_AST_BIN[type(node.op)]], [left, right]) or None
             return record('binop', (_AST_BIN[type(node.op)], frozenset(left), frozenset(right)), ans)
@@ -912,6 +935,13 @@ def make_resolver(prog, runs, decline=None, log=None):
 
 class Analysis(object):
     pass
+
+
+class Diverged(Exception):
+    """The worklist visited more nodes than any terminating run on programs of this size does."""
+
+
+VISIT_BUDGET = 4000
 
 
 def analyze(prog, resolver):
@@ -932,21 +962,33 @@ def analyze(prog, resolver):
     base = type_inference.Analyzer
     orig_init = base.__init__
 
+    orig_visit = base.visit_node
+    visits = [0]
+
     def init(self, *a, **kw):
         orig_init(self, *a, **kw)
         analyzers.append(self)
 
+    def visit_node(self, node):
+        visits[0] += 1
+        if visits[0] > VISIT_BUDGET:
+            raise Diverged()
+        return orig_visit(self, node)
+
     base.__init__ = init
+    base.visit_node = visit_node
     try:
         node = type_inference.resolve(node, ctx, graphs, resolver)
     finally:
         base.__init__ = orig_init
+        base.visit_node = orig_visit
     a = Analysis()
     a.graphs = graphs
     a.analyzers = analyzers
     a.anno = anno
     a.types = {}
     a.closure = {}
+    a.visits = visits[0]
     for i, n in enumerate(prog.nodes):
         t = anno.getanno(n, anno.Static.TYPES, None)
         if t is not None:
@@ -961,36 +1003,135 @@ def analyze(prog, resolver):
 # --------------------------------------------------------------------------------------------
 # judging the property text on the recorded runs
 
+UNTYPED = 'c19-untyped-binding-keeps-stale-types'
+SIDE = 'c19-local-function-side-effects-not-applied'
+
+
+def _depth(prog, f):
+    d = 0
+    while f is not None:
+        d += 1
+        f = prog.parent_fun.get(id(f))
+    return d
+
+
 def judge(prog, an, runs):
-    """-> list of failures: dict(kind, node, text, reported, runtime, writer, ...)"""
+    """The property text on the recorded events: every reported set covers the run-time value.
+    -> list of failures (dicts), each with f['cause'] in (UNTYPED, SIDE, None); None = unexplained.
+
+    Classifiers of the known findings (narrow, decided per failing observation, in execution order):
+    UNTYPED: the offending value was bound by a construct for which the inferrer recorded no type for
+      that name (no TYPES annotation on the binding occurrence: a right-hand side it cannot type, an
+      augmented assignment, a for target, a parameter the resolver does not know).  The type map cannot
+      say 'unknown', so the name keeps the types of earlier bindings / of the other paths.
+    SIDE: the offending value was bound inside a local function through a `nonlocal` declaration; calls
+      of local functions have no side effects in the analysis.
+    Propagation: an expression / assignment target whose reported set is wrong is explained when a
+      name read inside the same statement is explained; a binding that stored such a value is
+      'tainted' and explains later reads of that binding in the same run."""
+    if not hasattr(prog, 'stmt_index'):
+        index_statements(prog)
     out = []
     seen = set()
     for ri, (rec, res) in enumerate(runs):
+        tainted = {}           # store-node index -> cause (this run, most recent binding)
+        stmt_cause = {}        # statement index -> cause of a failing name read in its current execution
         for ev in rec.events:
-            if ev[0] == 'E' or ev[0] == 'B':
+            if ev[0] in ('E', 'B'):
                 k, v, writer = ev[1], ev[2], ev[3]
+                n = prog.nodes[k]
+                st = stmt_of(prog, k)
+                is_read = ev[0] == 'E' and isinstance(n, ast.Name)
+                if ev[0] == 'B':
+                    tainted.pop(k, None)
                 rep = an.types.get(k)
                 if rep is None or covered(v, rep):
                     continue
-                key = (ev[0], k, tname(typeof(v)))
+                cause = None
+                if is_read and writer is not None:
+                    wk, sk = writer
+                    wf = prog.fun_of(sk)
+                    wn = prog.nodes[sk]
+                    wname = wn.id if isinstance(wn, ast.Name) else (wn.arg if isinstance(wn, ast.arg) else wn.name)
+                    if sk not in an.types and not isinstance(wn, ast.FunctionDef):
+                        cause = UNTYPED
+                    elif sk in tainted:
+                        cause = tainted[sk]
+                    elif wf is not None and not isinstance(wn, ast.FunctionDef) and prog.owner(wf, wname) != wf.name:
+                        cause = SIDE
+                    if cause:
+                        stmt_cause[st] = cause
+                elif not is_read:
+                    cause = stmt_cause.get(st)
+                    if ev[0] == 'B' and cause:
+                        tainted[k] = cause
+                key = (ev[0], k, tname(typeof(v)), cause)
                 if key in seen:
                     continue
                 seen.add(key)
-                n = prog.nodes[k]
                 out.append({'kind': 'name' if isinstance(n, (ast.Name, ast.arg)) else 'expression',
                             'event': ev[0], 'node': k, 'line': getattr(n, 'lineno', None),
                             'text': ast.unparse(n), 'reported': tset(rep), 'runtime': tname(typeof(v)),
-                            'writer': writer, 'run': ri})
+                            'writer': writer, 'run': ri, 'cause': cause})
+            elif ev[0] == 'BE':
+                stmt_cause.pop(ev[1], None)
             elif ev[0] == 'C':
                 fk, name, v, writer = ev[1], ev[2], ev[3], ev[4]
                 rep = an.closure.get(fk, {}).get(name)
                 if rep is None or covered(v, rep):
                     continue
-                key = ('C', fk, name, tname(typeof(v)))
+                cause = None
+                if writer is not None:
+                    wk, sk = writer
+                    wf = prog.fun_of(sk)
+                    wn = prog.nodes[sk]
+                    if sk not in an.types and not isinstance(wn, ast.FunctionDef):
+                        cause = UNTYPED
+                    elif sk in tainted:
+                        cause = tainted[sk]
+                    elif wf is not None and isinstance(wn, ast.Name) and prog.owner(wf, wn.id) != wf.name:
+                        cause = SIDE
+                key = ('C', fk, name, tname(typeof(v)), cause)
                 if key in seen:
                     continue
                 seen.add(key)
                 out.append({'kind': 'closure', 'event': 'C', 'node': fk, 'line': prog.nodes[fk].lineno,
                             'text': 'closure types of %s for %s' % (prog.nodes[fk].name, name), 'name': name,
-                            'reported': tset(rep), 'runtime': tname(typeof(v)), 'writer': writer, 'run': ri})
+                            'reported': tset(rep), 'runtime': tname(typeof(v)), 'writer': writer, 'run': ri,
+                            'cause': cause})
     return out
+
+
+# --------------------------------------------------------------------------------------------
+# statement index
+
+def stmt_of(prog, k):
+    """index of the CFG-level statement / test expression that contains node k (the nearest ancestor that
+    is a statement, or the test of an if/while, or the iter of a for)"""
+    return prog.stmt_index.get(k)
+
+
+def index_statements(prog):
+    prog.stmt_index = {}
+
+    def rec(n, cur):
+        i = prog.num[id(n)]
+        if isinstance(n, ast.stmt) and not isinstance(n, (ast.If, ast.While, ast.For, ast.FunctionDef)):
+            cur = i
+        prog.stmt_index[i] = cur
+        for name, val in ast.iter_fields(n):
+            kids = val if isinstance(val, list) else [val]
+            for c in kids:
+                if not isinstance(c, ast.AST):
+                    continue
+                if isinstance(n, (ast.If, ast.While)) and name == 'test':
+                    rec(c, prog.num[id(c)])
+                elif isinstance(n, ast.For) and name == 'iter':
+                    rec(c, prog.num[id(c)])
+                elif isinstance(n, ast.FunctionDef) and name == 'args':
+                    rec(c, prog.num[id(c)])
+                else:
+                    rec(c, cur)
+    rec(prog.tree, None)
+
+
